@@ -11,6 +11,11 @@ C++ source (so the harness cross-checks the translator on the whole finite domai
   turn <o>      -> turn <0|1>      isTurn
   flip <o>      -> flip <xf> <yf>  the flip sets of pinXOffset / pinYOffset
   assign <p> <o> <cur> -> assign <code>   LegalizerBase::getOrientation (= DetailedPlacement::place's update)
+
+Besides the `tables` case, the object-history stream of harness/h_C04.cpp sends one case `h<k>_<j>` per observed
+Circuit::legalize / Circuit::placeDetailed call on a history object: for every movable cell that sits in a free row
+segment afterwards, `assign <polarity> <orientation of that segment in rows() as they are now> <orientation before the
+call>`; the real code's line is the orientation the cell has after the call.
 -/
 open ColoVerif Driver
 
